@@ -496,6 +496,35 @@ theorem translations_keep_edges (r : Region) (hr : r.Inv) (ops : List Op)
       obtain ⟨h1, h2⟩ := ih ret hnd.1 hall' (by rw [hnd.2.1]; exact ha)
       exact ⟨h1.trans hnd.2.1, h2.trans he⟩
 
+/-- **scaling back restores the region**: a scaling followed by the scaling with the reciprocal
+factors about the same reference point gives the original corners on every axis — negative factors
+included (the corners swap twice), either form at either step -/
+theorem scale_inverse (r : Region) (hr : r.Inv) (f g : Factor) (R : List Rat) (b b' : Bool)
+    (x1 r1 x2 r2 : Region) (h1 : scaleR r f (some R) b = .ok (x1, r1))
+    (h2 : scaleR r1 g (some R) b' = .ok (x2, r2)) (a : Nat) (ha : a < r.ndim)
+    (hfg : g.at a * f.at a = 1) : r2.lo a = r.lo a ∧ r2.hi a = r.hi a := by
+  obtain ⟨hi1, hn1, _⟩ := stepR_ndim r hr (.scale f (some R) b) x1 r1 (by simpa [stepR] using h1)
+  obtain ⟨e1, e2⟩ := scale_affine r hr f (some R) b x1 r1 h1 a ha
+  obtain ⟨e3, e4⟩ := scale_affine r1 hi1 g (some R) b' x2 r2 h2 a (by rw [hn1]; exact ha)
+  simp only [Option.getD_some] at e1 e2 e3 e4
+  have hlt : r.lo a < r.hi a := hr.2.2.2.2.2 a ha
+  generalize R.getD a 0 = c at *
+  generalize f.at a = s at *
+  generalize g.at a = t at *
+  have hs : s ≠ 0 := by rintro rfl; simp at hfg
+  have key : ∀ x : Rat, c + t * (c + s * (x - c) - c) = x := by
+    intro x; have : t * (s * (x - c)) = (t * s) * (x - c) := by ring
+    rw [show c + s * (x - c) - c = s * (x - c) by ring, this, hfg]; ring
+  rcases lt_or_gt_of_ne hs with hneg | hpos
+  · have hAB : c + s * (r.hi a - c) < c + s * (r.lo a - c) := by nlinarith
+    rw [min_eq_right hAB.le] at e1; rw [max_eq_left hAB.le] at e2
+    rw [e1, e2, key, key] at e3 e4
+    rw [e3, e4, min_eq_right hlt.le, max_eq_left hlt.le]; exact ⟨rfl, rfl⟩
+  · have hAB : c + s * (r.lo a - c) < c + s * (r.hi a - c) := by nlinarith
+    rw [min_eq_left hAB.le] at e1; rw [max_eq_right hAB.le] at e2
+    rw [e1, e2, key, key] at e3 e4
+    rw [e3, e4, min_eq_left hlt.le, max_eq_right hlt.le]; exact ⟨rfl, rfl⟩
+
 /-- a zero factor on any axis is rejected by both forms -/
 theorem zero_factor_rejected (r : Region) (f : Factor) (ref : Option (List Rat)) (a : Nat) (ha : a < r.ndim)
     (hz : f.at a = 0) : (∃ e, scaleR r f ref true = .error e) ∧ (∃ e, scaleR r f ref false = .error e) := by
